@@ -130,6 +130,44 @@ def build_db(variants: List[List[List[Dict[str, Any]]]]) -> Dict[str, Any]:
     return {k: db.ecu_variants[f"EV{n}"] for n, k in enumerate(keys)}
 
 
+def build_db_bv(variants: List[List[List[Dict[str, Any]]]]) -> Dict[str, Any]:
+    """The same candidates as BASE-VARIANTs (each with at most one BASE-VARIANT-PATTERN) below a functional group that holds
+    the identification services; service 1 is to be addressed physically, service 2 functionally."""
+    fg = og.Layer("FUNCTIONAL-GROUP", "FG", "FG")
+    fg.dops.append(og.dop("DOP.u8", "u8", og.dct_standard("A_UINT32", 8)))
+    fg.structures.append(og.structure("ST.item", "item", [og.p_value("p", "DOP.u8")]))
+    fg.eopdu_fields.append(og.end_of_pdu_field("EOP.items", "items", "ST.item"))
+    for s_ in (1, 2):
+        fg.requests.append(og.request(f"RQ.s{s_}", f"RQ_s{s_}", [og.p_const8("sid", 0x22, bytepos=0),
+                                                                    og.p_const8("did_hi", 0x10, bytepos=1),
+                                                                    og.p_const8("did_lo", s_, bytepos=2)]))
+        fg.pos_responses.append(og.response("POS-RESPONSE", f"PR.s{s_}", f"PR_s{s_}", [
+            og.p_const8("sid", 0x62, bytepos=0), og.p_const8("did_hi", 0x10, bytepos=1), og.p_const8("did_lo", s_, bytepos=2),
+            og.p_value("id", "DOP.u8", bytepos=3), og.p_value("st", "ST.item", bytepos=4),
+            og.p_value("fl", "EOP.items", bytepos=5)]))
+        fg.neg_responses.append(og.response("NEG-RESPONSE", f"NR.s{s_}", f"NR_s{s_}", [
+            og.p_const8("sid", 0x7F, bytepos=0), og.p_const8("rq_sid", 0x22, bytepos=1), og.p_value("nrc", "DOP.u8", bytepos=2)]))
+        fg.diag_comms.append(og.service(f"DC.s{s_}", f"s{s_}", f"RQ.s{s_}", [f"PR.s{s_}"], [f"NR.s{s_}"]))
+    layers = [fg]
+    keys: List[str] = []
+    for n, v in enumerate(variants):
+        bv = og.Layer("BASE-VARIANT", f"BV.{n}", f"BV{n}")
+        if v:
+            mps = []
+            for mp in v[0]:
+                kind, path = TARGET[mp["tgt"]]
+                mps.append(og.matching_parameter(str(mp["exp"]), f"s{mp['svc']}",
+                                                 out_snref=path if kind == "snref" else None,
+                                                 out_snpathref=path if kind == "snpathref" else None,
+                                                 base_variant=True, physical=(mp["svc"] == 1)))
+            bv.patterns = og.base_variant_pattern(mps)
+        bv.parent_refs.append(og.parent_ref("FG", "FUNCTIONAL-GROUP", "DLC"))
+        layers.append(bv)
+        keys.append(variant_key(v))
+    db = og.load([og.container("DLC", "DLC", layers)])
+    return {k: db.base_variants[f"BV{n}"] for n, k in enumerate(keys)}
+
+
 def ecu_response(kind: Dict[str, Any], svc: int) -> bytes:
     if "err" in kind:
         return bytes([0x7F, 0x22, 0x31])
@@ -140,6 +178,7 @@ def run_real(objs: Dict[str, Any], cands: List[Any], ecu: List[Dict[str, Any]], 
     from odxtools.variantmatcher import VariantMatcher
     clist = [objs[variant_key(v)] for v in cands]
     reqs: List[int] = []
+    phys: List[bool] = []
     exc = ""
     result = -1
     try:
@@ -148,6 +187,7 @@ def run_real(objs: Dict[str, Any], cands: List[Any], ecu: List[Dict[str, Any]], 
             rq = bytes(rq)
             svc = rq[2] if len(rq) == 3 and rq[:2] == b"\x22\x10" else 0
             reqs.append(svc)
+            phys.append(bool(_phys))
             if len(reqs) > 200:
                 raise RuntimeError("request loop does not terminate")
             m.evaluate(ecu_response(ecu[svc - 1], svc) if svc in (1, 2) else b"\x7f\x22\x11")
@@ -158,7 +198,7 @@ def run_real(objs: Dict[str, Any], cands: List[Any], ecu: List[Dict[str, Any]], 
             result = 0 if m.matching_variant is None else -3
     except Exception as e:  # noqa: BLE001
         exc = type(e).__name__
-    return {"reqs": reqs, "result": result, "exc": exc}
+    return {"reqs": reqs, "result": result, "exc": exc, "phys": phys}
 
 
 def to_events(tid: int, cands: Any, ecu: Any, cache: bool, ob: Dict[str, Any]) -> List[Dict[str, Any]]:
@@ -264,6 +304,7 @@ def check(tier: str, replay: Optional[str] = None) -> int:
                 for var in r["cands"]:
                     distinct.setdefault(variant_key(var), var)
             objs = build_db(list(distinct.values()))
+            objs_bv = build_db_bv([var for var in distinct.values() if len(var) <= 1])
             stats["dbs"] += 1
             stats["distinct_variants"] += len(distinct)
             for r in recs:
@@ -283,6 +324,17 @@ def check(tier: str, replay: Optional[str] = None) -> int:
                         suspects.append((r["cands"], r["ecu"], r["cache"], ob))
                 elif rng.random() < (0.01 if tier == "quick" else 0.003):
                     sampled.append((r["cands"], r["ecu"], r["cache"], ob))
+                # the same candidates as base variants (one pattern at most): same result, same requests, and the addressing
+                # each request asks for is the one its matching parameters state
+                if all(len(c) <= 1 for c in r["cands"]):
+                    ob2 = run_real(objs_bv, r["cands"], r["ecu"], r["cache"])
+                    stats["base_variant_runs"] = stats.get("base_variant_runs", 0) + 1
+                    if ob2["exc"] or ob2["result"] != r["result"] or ob2["reqs"] != r["reqs"]:
+                        stats["nonconforming"] += 1
+                        if len(suspects) < 3000:
+                            suspects.append((r["cands"], r["ecu"], r["cache"], ob2))
+                    elif ob2["phys"] != [sv == 1 for sv in ob2["reqs"]]:
+                        v.diverge("addressing_of_identification_request", {"cands": r["cands"], "reqs": ob2["reqs"], "phys": ob2["phys"]})
             if not samples:
                 r = recs[len(recs) // 2]
                 samples.append({"model": name, "cands": r["cands"], "ecu": r["ecu"], "cache": r["cache"],
